@@ -13,7 +13,10 @@ use self::{deep::DeepEx, number_tracker::NumberTracker};
 pub mod calculate;
 pub mod deep;
 pub mod flat;
+#[cfg(not(exmex_verif))]
 mod number_tracker;
+#[cfg(exmex_verif)]
+pub mod number_tracker;
 #[cfg(feature = "partial")]
 pub mod partial;
 #[cfg(feature = "serde")]
